@@ -6,6 +6,11 @@ Tie P/D: `convert_nodal2elemental(calc_average=True)` and `convert_elemental2nod
 Oracle : the laws of the property on the returned arrays only (independent of the model): mean of own nodes, affine
          field reproduced at the vertex centroid, constants, range, weights (recovered with indicator fields)
          non-negative / row sums 1 / proportional to element size, effective: column sums 1, equal shares, totals.
+Stream `n2e-history` ("convert, overwrite the named field, convert again on the same object"; inside the quantifier,
+         reported through `fail`): a nodal field registered under a name is converted BY NAME, overwritten through the
+         public API (nodal_data.overwrite with / without ids, set_attribute_data(allow_overwrite=True)) and converted by
+         name again on the same object; the second result must be the mean of the NEW values (oracle) and equal the
+         model's exact-rational evaluation on the new values (tie).
 """
 from fractions import Fraction as F
 
@@ -24,7 +29,8 @@ PARTIAL = ['order1_only=True (first-order nodes of tet2 only) is exercised by th
 RULE = ('seeded meshes (tri, quad, tri+quad, tet, tet2, hex, prism, pyr, hex+prism+pyr; affine / jittered; voids; unreferenced '
         'nodes; ids dense / sparse / large / huge / prefix-like; storage ascending / descending / shuffled; type blocks '
         'shuffled) x field widths 1-6 (and 1-D) with dyadic / integer / constant / affine / indicator values x '
-        '{nodal->elemental, elemental->nodal mean with implicit / explicit / False weights, effective}; a case is one '
+        '{nodal->elemental, elemental->nodal mean with implicit / explicit / False weights, effective}; plus histories on one '
+        'object: named nodal field converted by name, overwritten through the public API, converted by name again; a case is one '
         '(mesh, conversion, weights, field) evaluation; non-trivial when the mesh has at least two elements sharing a node; '
         'distinct = distinct (mesh, conversion, weights, field) content')
 ASSUMPTIONS = [
@@ -169,6 +175,67 @@ def tie_n2e(ctx, m, rows, real, case):
             return
     if order != list(real):
         ctx.disagree('convert_nodal2elemental: element order', case, list(real)[:10], order[:10])
+
+
+HOW_OVERWRITE = ['overwrite', 'overwrite', 'overwrite-with-ids', 'set_attribute_data']
+
+
+def n2e_laws(m, ids, r, rows, affine, when):
+    """mean of own nodes / affine at the vertex centroid for the result rows `r` (element ids `ids`) of field `rows`"""
+    width = len(rows[0])
+    val = {i: rows[k] for k, (i, _) in enumerate(m['nodes'])}
+    pos = dict(m['nodes'])
+    sc = max([1.0] + [abs(float(v)) for row in rows for v in row])
+    conn = {e: c for e, _, c in flat_elems(m)}
+    fails = []
+    if len(r) != len(ids) or r.shape[1] != width:
+        return [('n2e:shape', f'{when}: result has shape {r.shape} for {len(ids)} elements and a field of width {width}',
+                 {'shape': list(r.shape)})]
+    for k, e in enumerate(ids):
+        c = conn[e]
+        want = [sum(val[n][w] for n in c) / len(c) for w in range(width)]
+        if not all(abs(float(a) - b) <= TOL * sc for a, b in zip(want, r[k])):
+            fails.append(('n2e:mean-of-own-nodes', f'element {e}: value is not the mean of its own nodes\' (current) values ({when})',
+                          {'element': e, 'expected': [float(a) for a in want], 'got': r[k].tolist(), 'when': when}))
+            break
+        if affine is not None:
+            a, b = affine
+            g = [sum(pos[n][j] for n in c) / len(c) for j in range(3)]
+            atc = [sum(a[w][j] * g[j] for j in range(3)) + b[w] for w in range(width)]
+            if not all(abs(float(u) - v) <= TOL * sc for u, v in zip(atc, r[k])):
+                fails.append(('n2e:affine-at-centroid', f'element {e}: affine field not reproduced at the vertex centroid ({when})',
+                              {'element': e, 'expected': [float(u) for u in atc], 'got': r[k].tolist(), 'when': when}))
+                break
+    return fails
+
+
+def check_n2e_history(m, rows1, rows2, how, affine2=None, name='T'):
+    """history on ONE object: register the nodal field `name` (rows1), convert it by name, overwrite it through the public
+    API (rows2), convert it by name again with the same flags.  Returns (failures, real first result, real second result,
+    error); results as {element id: row}"""
+    fd = K.to_fem(m)
+    x1, x2 = as_array(rows1), as_array(rows2)
+    nids = np.array([i for i, _ in m['nodes']])
+    G.quiet(fd.nodal_data.update_data, nids, {name: x1})
+    try:
+        r1 = G.quiet(fd.convert_nodal2elemental, name, calc_average=True)
+    except ValueError as e:
+        return [], None, None, 'value_error:' + str(e)[:60]
+    r1 = np.array(r1, dtype=float).reshape(len(fd.elements.ids), -1)       # copy: taken before the overwrite
+    if how == 'overwrite':
+        G.quiet(fd.nodal_data.overwrite, name, x2)
+    elif how == 'overwrite-with-ids':
+        G.quiet(fd.nodal_data.overwrite, name, x2, ids=nids)
+    elif how == 'set_attribute_data':
+        G.quiet(fd.nodal_data.set_attribute_data, name, x2, allow_overwrite=True)
+    else:
+        raise ValueError(how)
+    r2 = G.quiet(fd.convert_nodal2elemental, name, calc_average=True)
+    r2 = np.array(r2, dtype=float).reshape(len(fd.elements.ids), -1)
+    ids = [int(i) for i in fd.elements.ids]
+    fails = n2e_laws(m, ids, r1, rows1, None, 'first conversion of the named field')
+    fails += n2e_laws(m, ids, r2, rows2, affine2, f'conversion by name after the named field was overwritten [{how}]')
+    return fails, dict(zip(ids, r1.tolist())), dict(zip(ids, r2.tolist())), None
 
 
 # ------------------------------------------------------------------------------------------ elemental -> nodal
@@ -398,6 +465,44 @@ def run(ctx):
             ctx.count('order1_only')
             for sig, what, obs in check_order1(m, fld):
                 ctx.fail(sig, what, {'check': 'order1', 'mesh': mj, 'field': field_json(fld)}, obs)
+    # ---- histories: convert a named field, overwrite it, convert again on the same object (drawn after the main loop so
+    #      that its cases are unchanged for a given seed)
+    hkinds = ['tet', 'hex', 'shell:tri', 'shell:quad', 'tet2', 'prism', 'pyr', 'mixed-nopyr', 'shell:mixed']
+    n_hist = ctx.n(120, 800) if ctx.driver is not None else ctx.n(240, 1600)
+    for k in range(n_hist):
+        history_case(ctx, rng, k, hkinds[k % len(hkinds)])
+
+
+def history_case(ctx, rng, k, kind):
+    """one case of the stream n2e-history"""
+    m = gen_mesh(rng, kind)
+    nn, ne = len(m['nodes']), len(flat_elems(m))
+    width = rng.randint(1, 6)
+    pos = [p for _, p in m['nodes']]
+    fld1 = gen_field(rng, nn, width, rng.choice(['dyadic', 'int', 'const']))
+    style2 = rng.choice(['dyadic', 'int', 'affine', 'affine'])
+    fld2 = gen_field(rng, nn, width, style2, pos)
+    aff = None
+    if isinstance(fld2, tuple):
+        fld2, aff = fld2
+    how = rng.choice(HOW_OVERWRITE)
+    case = {'check': 'n2e-history', 'mesh': G.to_json(m), 'field': field_json(fld1), 'field2': field_json(fld2), 'how': how,
+            'affine2': None if aff is None else [[[str(v) for v in r] for r in aff[0]], [str(v) for v in aff[1]]]}
+    fails, real1, real2, err = check_n2e_history(m, fld1, fld2, how, aff)
+    ctx.case(('n2e-history', k, width, style2, how),
+             sample={'check': 'n2e-history', 'mesh': G.describe(m), 'width': width, 'new_field': style2, 'how': how}
+             if ctx.dist.get('n2e-history:ok', 0) < 1 and not err else None, nontrivial=ne >= 2 and fld1 != fld2)
+    ctx.count('n2e-history:' + (err.split(':')[0] if err else 'ok'))
+    if not err:
+        ctx.count('n2e-history:how:' + how)
+        ctx.count('n2e-history:mesh:' + kind)
+        ctx.count('n2e-history:new-values:' + ('same-as-old' if fld1 == fld2 else 'different'))
+    for sig, what, obs in fails:
+        ctx.fail(sig, what, case, obs)
+    if real2 is not None and ctx.driver is not None:
+        small = {k_: v for k_, v in case.items() if k_ != 'mesh'} | {'mesh': G.describe(m)}
+        tie_n2e(ctx, m, fld1, real1, small | {'step': 'first conversion'})
+        tie_n2e(ctx, m, fld2, real2, small | {'step': 'conversion after the overwrite, model evaluated on the new values'})
 
 
 def replay(ctx, obj):
@@ -405,7 +510,12 @@ def replay(ctx, obj):
     m = G.from_json(case['mesh'])
     m['blocks'] = {t: m['blocks'][t] for t in G.ELEMENT_TYPES if t in m['blocks']}
     fld = field_from_json(case['field'])
-    if case['check'] == 'n2e':
+    if case['check'] == 'n2e-history':
+        aff = case.get('affine2')
+        if aff:
+            aff = ([[F(v) for v in r] for r in aff[0]], [F(v) for v in aff[1]])
+        fails, real1, real2, err = check_n2e_history(m, fld, field_from_json(case['field2']), case['how'], aff)
+    elif case['check'] == 'n2e':
         aff = case.get('affine')
         if aff:
             aff = ([[F(v) for v in r] for r in aff[0]], [F(v) for v in aff[1]])
